@@ -248,6 +248,7 @@ def build_harness(config="default"):
         env = dict(ENV)
         env["RUSTFLAGS"] = "--cfg rrtk_verif" if hook else ""
         env["RRTK_VERIF_GEN"] = gen_dir()
+        env["RRTK_VERIF_REPO"] = REPO
         cmd = "timeout 1500 cargo build --offline --no-default-features --features %s %s" % (feats, "--release" if release else "")
         p = sh(cmd, cwd=d, env=env, check=False, timeout=1600)
         if p.returncode != 0:
